@@ -36,7 +36,8 @@ def interactive_msg(msg, filltext=None):
     msg = textwrap.indent(msg, _prefix, lambda line: True)
 
     # (the standard input may be closed altogether)
-    if sys.stdin is not None and sys.stdin.isatty():
+    if sys.stdin is not None and sys.stdin.isatty() \
+       and sys.stderr is not None:
         print(msg, file=sys.stderr)
 
 
